@@ -65,7 +65,8 @@ func newC03Env(ruleset string) *c03Env {
 		e.qcs[b.name] = e.c.QC(blk, 1, 2, 3) // really signed by replicas 2,3,4
 		e.ops = append(e.ops, "propose "+b.name)
 	}
-	for _, n := range []string{"B1a", "B2a", "B1b"} {
+	// (QC(B3a) makes the replica under test the leader of view 4: it proposes and signs its own block)
+	for _, n := range []string{"B1a", "B2a", "B1b", "B3a"} {
 		e.ops = append(e.ops, "newview QC("+n+")")
 	}
 	e.ops = append(e.ops, "local-timeout")
@@ -137,7 +138,26 @@ func (s *c03Sys) Apply(op int) string {
 		}
 		bn, ok := s.byBytes[string(msg)]
 		if !ok {
-			continue // own proposal (the replica leads view 4) or a timeout message of the aggregate rule
+			// the replica's own proposal (it leads view 4) counts as its vote for that view
+			own := false
+			for _, m := range s.snd.Sent {
+				if pm, isP := m.(fix.ProposeTo); isP && string(pm.Msg.Block.ToBytes()) == string(msg) {
+					view := pm.Msg.Block.View()
+					own = true
+					if _, dup := s.voted[view]; dup {
+						return fmt.Sprintf("signed its own proposal for view %d after another vote in that view", view)
+					}
+					for _, pv := range s.votes {
+						if pv >= view {
+							return fmt.Sprintf("signed its own proposal for view %d after a vote in view %d", view, pv)
+						}
+					}
+					s.voted[view] = pm.Msg.Block.Hash()
+					s.votes = append(s.votes, view)
+				}
+			}
+			_ = own
+			continue // (otherwise: a timeout message of the aggregate rule)
 		}
 		b := s.e.blocks[bn]
 		var spec *c03Block
